@@ -83,6 +83,15 @@ func prefixesFromStr(prefixesStr string) (hashPrefixes []Prefix, err error) {
 			//
 			// TODO(a.garipov): Either remove this crutch or support such
 			// prefixes better.
+			//
+			// Make sure that the discarded part is also a valid hex string, so
+			// that malformed legacy prefixes are rejected as well.
+			var legacy [legacyPrefixEncLen / 2]byte
+			_, err = hex.Decode(legacy[:], []byte(s))
+			if err != nil {
+				return nil, fmt.Errorf("bad hash encoding for %q", s)
+			}
+
 			s = s[:PrefixEncLen]
 		default:
 			return nil, fmt.Errorf("bad hash len %d for %q", l, s)
